@@ -598,6 +598,10 @@ impl EmitScope {
             return abs.clone();
         }
 
+        if let Some(label_target) = self.resolve_label_in_knot(target, context) {
+            return label_target.to_owned();
+        }
+
         target.to_owned()
     }
 
@@ -609,6 +613,27 @@ impl EmitScope {
 
     fn resolve_choice_label(&self, label: &str) -> Option<&str> {
         self.choice_label_targets.get(label).map(String::as_str)
+    }
+
+    /// A bare label name that is not in scope as a label of the current weave: inside
+    /// a knot, the labelled choices and gathers of the knot's own weave and of all its
+    /// stitches can be named without qualification (the reference compiler searches
+    /// the whole knot). Global variables and parameters with that name come first.
+    fn resolve_label_in_knot<'a>(&self, label: &str, context: &'a EmitContext) -> Option<&'a str> {
+        if label.contains('.')
+            || context.global_variables.contains(label)
+            || self.temp_param_names.contains(label)
+        {
+            return None;
+        }
+        let knot = self.top_flow_name.as_deref()?;
+        let prefix = format!("{knot}.");
+        let suffix = format!(".{label}");
+        context
+            .qualified_choice_labels
+            .iter()
+            .find(|(qualified, _)| qualified.starts_with(&prefix) && qualified.ends_with(&suffix))
+            .map(|(_, path)| path.as_str())
     }
 
     fn resolve_qualified_choice_label(
